@@ -452,7 +452,8 @@ def resolve_relative_path(path: str) -> str:
     resolved: List[str] = []
     for part in parts:
         if part == "..":
-            resolved.pop()
+            if resolved:
+                resolved.pop()  # a segment that would climb above the root is dropped
         elif part != ".":
             resolved.append(part)
     return "/".join(resolved)
